@@ -1,6 +1,7 @@
 import VModel.Spec
 import VProofs.Lemmas.MergeCorrect
 import VProofs.Lemmas.ScorePredict
+import VProofs.Lemmas.ScoreOverwrite
 /-!
 # C01 — Boundary scores and decisions equal the pointwise linear model
 
@@ -94,6 +95,51 @@ theorem C01_no_unknown (cfg : Cfg) (m : WModel) (hm : WFModel m) (pt : Bool) (p 
   rw [← hx]
   split <;> simp
 
+/-- a prediction overwrites whatever an earlier prediction left in the sentence: predicting with `p` a sentence `s1` that
+any predictor `q` has already predicted gives the sentence that `p` produces from the fresh one in every field except possibly
+the two automaton-state vectors — scores (the whole padded buffer), padding, labels, text, types, tags, tag scores, number
+of tags and predictor id are equal.  A state vector is equal as well whenever `p` writes it (`writesCharStates` /
+`writesTypeStates`: the state-recording scorers and the cached type scorer); otherwise `p` hands through the vector it
+found, so the two results carry what `s1` and `s` carried.  (Remark, not part of the statement: a vector that `p` does not
+write is one that `p`'s own tag prediction does not read — in `tagToken` the plain and the cached scorers refuse
+`add_tag_scores` with "unsupported" before looking at the states, and a missing scorer is skipped.) -/
+theorem C01_predict_overwrites_fields (cfg : Cfg) (m : WModel) (hm : WFModel m) (pt : Bool) (p q : Predictor)
+    (hp : Predictor.new cfg m pt = .ok p) (s s1 : Sentence) (hs : SentOK s) (pid qid : Nat)
+    (h1 : q.predict qid s = .ok s1) :
+    ∃ r r1, p.predict pid s = .ok r ∧ p.predict pid s1 = .ok r1 ∧
+      r1 = { r with cstates := r1.cstates, tstates := r1.tstates } ∧
+      (p.writesCharStates = true → r1.cstates = r.cstates) ∧
+      (p.writesCharStates = false → r.cstates = s.cstates ∧ r1.cstates = s1.cstates) ∧
+      (p.writesTypeStates = true → r1.tstates = r.tstates) ∧
+      (p.writesTypeStates = false → r.tstates = s.tstates ∧ r1.tstates = s1.tstates) :=
+  C01O.predict_overwrites_fields cfg m hm.charW_pos hm.char_shape hm.typeW_pos hm.type_shape
+    (fun d hd => (hm.dict_shape d hd).1) pt p hp q s s1 hs.text_ne hs.types_eq hs.bounds_len pid qid h1
+
+/-- the same as an equality of results (all fields, state vectors included) when `p` writes every state vector that `q`
+wrote.  Without that hypothesis the equality fails: see the counterexample below. -/
+theorem C01_predict_overwrites (cfg : Cfg) (m : WModel) (hm : WFModel m) (pt : Bool) (p q : Predictor)
+    (hp : Predictor.new cfg m pt = .ok p)
+    (hwc : q.writesCharStates = true → p.writesCharStates = true)
+    (hwt : q.writesTypeStates = true → p.writesTypeStates = true)
+    (s s1 : Sentence) (hs : SentOK s) (pid qid : Nat) (h1 : q.predict qid s = .ok s1) :
+    p.predict pid s1 = p.predict pid s :=
+  C01O.predict_overwrites_eq cfg m hm.charW_pos hm.char_shape hm.typeW_pos hm.type_shape
+    (fun d hd => (hm.dict_shape d hd).1) pt p hp q hwc hwt s s1 hs.text_ne hs.types_eq hs.bounds_len pid qid h1
+
+/-- in particular predicting again with the same predictor is the same as predicting once -/
+theorem C01_predict_twice (cfg : Cfg) (m : WModel) (hm : WFModel m) (pt : Bool) (p : Predictor)
+    (hp : Predictor.new cfg m pt = .ok p) (s s1 : Sentence) (hs : SentOK s) (pid pid' : Nat)
+    (h1 : p.predict pid s = .ok s1) : p.predict pid' s1 = p.predict pid' s :=
+  C01_predict_overwrites cfg m hm pt p p hp id id s s1 hs pid' pid h1
+
+/-- which predictors write the state vectors, in terms of how they were built: the character states only with tag
+prediction on a model that has tag models; the type states in that case or with the cached type scorer -/
+theorem C01_states_written (cfg : Cfg) (m : WModel) (pt : Bool) (p : Predictor) (hp : Predictor.new cfg m pt = .ok p) :
+    (p.writesCharStates = true → pt = true ∧ cfg.tagPred = true ∧ m.tagModels ≠ []) ∧
+    (p.writesTypeStates = true →
+      (pt = true ∧ cfg.tagPred = true ∧ m.tagModels ≠ []) ∨ (cfg.cache = true ∧ m.typeW ≤ 3)) :=
+  C01O.new_writes cfg m pt p hp
+
 /-! ## non-vacuity: a concrete well-formed model (with a tag model, so that both the plain and the tag-aware scorers are
 built) and a sentence satisfying the hypotheses of `C01_scores` -/
 
@@ -120,5 +166,42 @@ example : (Predictor.new {} C01_exModel true).isOk = true := by decide
 
 example : specScores C01_exModel C01_exSentence.text = [1, 0] := by decide
 example : specBounds C01_exModel C01_exSentence.text = [B.W, B.N] := by decide
+
+/-! ## non-vacuity of `C01_predict_overwrites` and the counterexample to the unconditional equality -/
+
+/-- the predictors of the three configurations above, and the sentence after a first prediction -/
+def C01_exPredict (cfg : Cfg) (pt : Bool) (pid : Nat) (s : Sentence) : Res Sentence :=
+  match Predictor.new cfg C01_exModel pt with
+  | .ok p => p.predict pid s
+  | .err e => .err e
+  | .panic x => .panic x
+  | .ub x => .ub x
+
+def C01_exWrites (cfg : Cfg) (pt : Bool) : Option (Bool × Bool) :=
+  match Predictor.new cfg C01_exModel pt with
+  | .ok p => some (p.writesCharStates, p.writesTypeStates)
+  | _ => none
+
+/-- the first prediction succeeds (hypothesis `h1`), for a tag-aware and for a plain `q` -/
+example : (C01_exPredict {} true 7 C01_exSentence).isOk = true := by decide
+example : (C01_exPredict {} false 7 C01_exSentence).isOk = true := by decide
+
+/-- tag-aware: both vectors written; fixed + cache: the type vector only; variable layout without cache: neither.  So the
+hypotheses `hwc`, `hwt` hold e.g. for `p` tag-aware and any `q`, for `p = q`, and for a plain `q` without cache and any `p` -/
+example : C01_exWrites {} true = some (true, true) := by decide
+example : C01_exWrites {} false = some (false, true) := by decide
+example : C01_exWrites { fixed := false, cache := false, tagPred := false } false = some (false, false) := by decide
+
+/-- the conclusion on the example: `q` plain and cached, `p` tag-aware -/
+example : (C01_exPredict {} false 7 C01_exSentence).bind (C01_exPredict {} true 3)
+    = C01_exPredict {} true 3 C01_exSentence := by decide
+
+/-- **counterexample** to the equality without `hwc`: `q` tag-aware leaves `char_pma_states = [0, 1, 2]` in the sentence,
+the plain `p` hands them through, whereas from the fresh sentence it hands through `[]` -/
+example : (C01_exPredict {} true 7 C01_exSentence).bind (C01_exPredict {} false 3)
+    ≠ C01_exPredict {} false 3 C01_exSentence := by decide
+example : ((C01_exPredict {} true 7 C01_exSentence).bind (C01_exPredict {} false 3)).map (·.cstates)
+    = .ok [some 0, some 1, some 2] := by decide
+example : (C01_exPredict {} false 3 C01_exSentence).map (·.cstates) = .ok [] := by decide
 
 end V
